@@ -473,6 +473,13 @@ def block_trace(case):
             t = rec["transformers"][0]
             tr["stmts"] = [_stmt_json(s) for s in t.input.statements]
             tr["blocks"] = _blocks_json(t)
+            if "out_text" in tr:
+                # what the second pass will see: the real statement splitter on the real output (premise `reparse`
+                # of the Lean fixed-point theorems C03_reformat_idem_*)
+                try:
+                    tr["out_stmts"] = [_stmt_json(s) for s in PythonBlock(FileText(tr["out_text"])).statements]
+                except Exception as e:
+                    tr["out_stmts_err"] = type(e).__name__
         return tr
     if rec["scans"]:
         codeblock, missing, unused = rec["scans"][0]
@@ -595,4 +602,38 @@ def text_compare(case, tr, resps):
         a, b = tr["out_text"], r["ok"]
         i = next((k for k in range(min(len(a), len(b))) if a[k] != b[k]), min(len(a), len(b)))
         return f"output text differs at offset {i}: impl={a[max(0,i-30):i+40]!r} model={b[max(0,i-30):i+40]!r}"
+    return None
+
+
+# --------------------------------------------------------------------------- reparse (premise of C03_reformat_idem_*)
+
+def reparse_requests(case, tr):
+    if case["tool"] != "reformat" or "stmts" not in tr or "out_stmts" not in tr:
+        return []
+    return [dict(op="reparse_text", stmts=tr["stmts"], params=params_json(case.get("params", {})))]
+
+
+def _merge_comments(stmts):
+    """adjacent comment/blank statements are one statement for the splitter; the model keeps the input's pieces"""
+    out = []
+    for s in stmts:
+        if not s["text"]:
+            continue
+        if out and out[-1]["kind"] == "comment" and s["kind"] == "comment":
+            out[-1] = dict(out[-1], text=out[-1]["text"] + s["text"])
+        else:
+            out.append(dict(s))
+    return [(s["text"], s["kind"], bool(s["is_import"]), sorted(map(tuple, s["imports"])), s["line"], s["col"]) for s in out]
+
+
+def reparse_compare(case, tr, resps):
+    r = resps[0]
+    if "err" in r:
+        return None if "err" in tr else f"reparse: model error {r['err']}, impl returned text"
+    got, want = _merge_comments(tr["out_stmts"]), _merge_comments(r["ok"])
+    if got != want:
+        for i, (g, w) in enumerate(zip(got, want)):
+            if g != w:
+                return f"reparse: statement {i} of the output: splitter={g!r} model={w!r}"
+        return f"reparse: statement count splitter={len(got)} model={len(want)}"
     return None
